@@ -100,7 +100,8 @@ Theorem C17_set_strings_within_limits_is_well_formed : forall p data dims q,
   name_ok (p_name p) -> desc_ok (p_desc p) ->
   Forall (fun s => no_nul s /\ rtrim s = s) data ->
   (let d := maxlen data :: dims_or_len dims (nlen data) in
-   (length d <= 255)%nat /\ Forall byte_ok d /\ prodN d < 2147483648 /\ loop_cost d 1 <= LIMC /\ prodN (dims_or_len dims (nlen data)) < 2147483648) ->
+   (length d <= 255)%nat /\ Forall byte_ok d /\ prodN d < 2147483648 /\ loop_cost d 1 <= LIMC /\ prodN (dims_or_len dims (nlen data)) < 2147483648 /\
+   loop_cost (dims_or_len dims (nlen data)) 1 <= LIMC) ->
   wf_param q.
 Proof. exact set_strs_wf. Qed.
 Print Assumptions C17_set_strings_within_limits_is_well_formed.
